@@ -341,7 +341,7 @@ func run(c *hl.Ctx) error {
 		c.Count("svg:corpus")
 	}
 	runJobs(c, jobs)
-	total := c.Pick(400, 30000)
+	total := c.Pick(400, 6000)
 	if c.Search && c.Tier != "thorough" {
 		total = 1500 // an obligation broke: a moderate search budget, not the thorough tier
 	}
